@@ -46,7 +46,11 @@ TRUSTED = [
     "`SolverPost` (ratios ≥ 0, cell rows ≤ 1 + tol, centres inside the die), monitored on every run",
     "hand-written model FV/Model/Glb.lean of extract_solution / recenter_rectangles / flip / Allocation-constructor "
     "checks / get_a / constant-vs-variable table / refine-optimise loop — fidelity checked by the correspondence "
-    "streams, not proved; `refine`, `must_be_refined`, `create_initial_allocation` are parameters of the loop theorem",
+    "streams, not proved",
+    "the loop theorems `glbfloorA_*` plug in the allocation model FV/Model/Alloc.lean (refine(thr, 1), must_be_refined, the "
+    "Allocation constructor — the code with fixes/C02_*, fixes/C12_* applied; its fidelity is checked by C02/C12's "
+    "correspondence runs); what remains a parameter: the solver, and the start (any ValidAlloc inside the die — "
+    "`create_initial_allocation` is property C03's)",
     "theorems are over exact ordered fields; IEEE rounding is executed (F stream), never proved",
     "harness (Python): wrapping of extract_solution / optimize_allocation, comparison, exact clause evaluation",
 ]
@@ -1061,7 +1065,9 @@ def run(ctx: Ctx) -> None:
         "the solver's answer is an input: `SolverPost` (FV/Props/C10.lean) is assumed by extract_ratios / fixed_kept and "
         "monitored on every captured answer (see coverage.solver_post)",
         "runs in which GEKKO raises or an assertion fires did not return and are outside the property (counted)",
-        "refine / must_be_refined / create_initial_allocation are parameters of the loop theorem (properties C02/C12/C03)",
+        "loop theorems: `glbLoop_invariant`/`glbfloor_feasible` keep refine / must_be_refined abstract; `glbfloorA_*` instantiate "
+        "them with the allocation model of C02/C12 (no hypothesis about refine left); the start allocation is any ValidAlloc "
+        "inside the die (create_initial_allocation: C03)",
     ]
     reqs, todo = [], []
     seeds = getattr(ctx, "seed_inputs", [])
